@@ -142,6 +142,32 @@ def main(tier, seed, replay=None):
                 a1 = [hx(other, "f64")] * P0
                 c["ops"] = [["set", a0], ["observe"], ["jac"], ["set", a1], ["observe"], ["jac"], ["ref", a1], ["ref", a0]]
                 cases.append(c)
+    # neighbouring parameter vectors: an update that moves ONE component by an ulp, a few ulps or a small relative amount — also
+    # when another component is many orders of magnitude larger (so that the step is far below machine epsilon times the norm of
+    # the vector) — is an update like any other; full-precision model values, so that the neighbour's state differs in its bits
+    for fam in ("cosmix", "exp2c", "shared", "rat2"):
+        for bm in (True, False):
+            for kind in ("ulp", "ulp4", 1e-9, 1e-5):
+                for sc0 in ("f64", "f32"):
+                    if sc0 == "f32" and kind not in ("ulp", 1e-5):
+                        continue
+                    c = gen_problem(rng, family=fam, quant=None, builder_made=bm, scalar=sc0,
+                                    ctor=rng.choice(["new", "mrhs", "new_parallel", "mrhs_parallel"]))
+                    base = list(c["model"]["init"])
+                    if fam == "cosmix" and kind in (1e-9, 1e-5):
+                        base = [hx(1e8 if sc0 == "f64" else 4096.0, sc0), hx(1e-3, sc0)]       # mixed scales
+                    j = len(base) - 1
+                    if kind == "ulp":
+                        nbv = "%s%0*x" % (base[j][0], len(base[j]) - 1, hxbits(base[j]) + 1)
+                    elif kind == "ulp4":
+                        nbv = "%s%0*x" % (base[j][0], len(base[j]) - 1, hxbits(base[j]) + 4)
+                    else:
+                        nbv = hx(round_to(unhx(base[j]) * (1.0 + kind), sc0), sc0)
+                    nb = base[:j] + [nbv]
+                    c["ops"] = [["set", base], ["observe"], ["jac"], ["set", nb], ["observe"], ["jac"], ["set", base], ["set", nb],
+                                ["observe"], ["jac"], ["ref", nb], ["ref", base]]
+                    c["meta"]["neighbour"] = str(kind)
+                    cases.append(c)
     nshape = len(cases)
     for i in range(n):
         cases.append(gen(rng, i))
